@@ -815,3 +815,41 @@ func c04GenJudge(w *Worker, o *obs, variants []string, bad func(kind, variant, i
 }
 
 var _ = gen.Go
+
+// forEachDecorated enumerates every decoration of every conflicting rule set of
+// the cell classes (both rule orders) and calls f for this worker's share.
+func forEachDecorated(w *Worker, base int64, f func(c *GCase)) {
+	idx := base
+	for _, cl := range c04CellClasses(w) {
+		u := cl.Universe()
+		terms := gram.TNames[:cl.T]
+		cl.Enumerate(false, func(i int64, rules []int) bool {
+			b0 := cl.SpecOf(u, rules)
+			g := ref.FromSpec(b0)
+			if !g.Usable() || g.LR0().Table().ConflictFree {
+				return true
+			}
+			orders := []*gram.Spec{b0}
+			if len(b0.Rules) > 1 {
+				rev := &gram.Spec{Start: b0.Start, Tokens: b0.Tokens}
+				for k := len(b0.Rules) - 1; k >= 0; k-- {
+					rev.Rules = append(rev.Rules, b0.Rules[k])
+				}
+				orders = append(orders, rev)
+			}
+			for _, b := range orders {
+				decorations(b, terms, func(s *gram.Spec) {
+					if w.Mine(idx) {
+						c := &GCase{Origin: cl.String() + "+prec", Spec: s}
+						if idx%64 == 0 {
+							w.Begin(idx, c)
+						}
+						f(c)
+					}
+					idx++
+				})
+			}
+			return true
+		})
+	}
+}
